@@ -230,10 +230,10 @@ func fileToString(L *LState) int {
 }
 
 func fileWriteAux(L *LState, file *lFile, idx int) int {
+	errorIfFileIsClosed(L, file)
 	if n := fileIsWritable(L, file); n != 0 {
 		return n
 	}
-	errorIfFileIsClosed(L, file)
 	top := L.GetTop()
 	out := file.writer
 	var err error
@@ -303,10 +303,10 @@ errreturn:
 }
 
 func fileFlushAux(L *LState, file *lFile) int {
+	errorIfFileIsClosed(L, file)
 	if n := fileIsWritable(L, file); n != 0 {
 		return n
 	}
-	errorIfFileIsClosed(L, file)
 
 	if bwriter, ok := file.writer.(*bufio.Writer); ok {
 		if err := bwriter.Flush(); err != nil {
@@ -327,10 +327,10 @@ func fileFlushAux(L *LState, file *lFile) int {
 }
 
 func fileReadAux(L *LState, file *lFile, idx int) int {
+	errorIfFileIsClosed(L, file)
 	if n := fileIsReadable(L, file); n != 0 {
 		return n
 	}
-	errorIfFileIsClosed(L, file)
 	if L.GetTop() == idx-1 {
 		L.Push(LString("*l"))
 	}
@@ -501,10 +501,10 @@ func fileLinesIter(L *LState) int {
 func fileLines(L *LState) int {
 	file := checkFile(L)
 	ud := L.CheckUserData(1)
+	errorIfFileIsClosed(L, file)
 	if n := fileIsReadable(L, file); n != 0 {
 		return 0
 	}
-	errorIfFileIsClosed(L, file)
 	L.Push(L.NewClosure(fileLinesIter, L.Get(UpvalueIndex(1)), ud))
 	return 1
 }
@@ -519,10 +519,10 @@ func fileSetVBuf(L *LState) int {
 	var err error
 	var writer io.Writer
 	file := checkFile(L)
+	errorIfFileIsClosed(L, file)
 	if n := fileIsWritable(L, file); n != 0 {
 		return n
 	}
-	errorIfFileIsClosed(L, file)
 	// the buffer that is being replaced may hold output
 	if bwriter, ok := file.writer.(*bufio.Writer); ok {
 		if err = bwriter.Flush(); err != nil {
